@@ -860,6 +860,18 @@ theorem history_refines_every_op_function (pre ops : List Cqm.Op) (hpre : ∀ op
     ⟨history_inv pre hpre, history_labels pre, history_keysym pre hpre, history_sorted pre hpre⟩
   exact obsRun_refines ops hinv hops hsucc
 
+/-- **`flip_variable` — the function is total.**  From any reachable state `LCqm.flipF` is an error EXACTLY when the call raises
+    (unknown label, INTEGER or REAL variable), and a call that raises leaves the model as it was; together with
+    `flip_variable_is_a_function`: for every label the call and the function on (polynomials, `is_linear()` flags) agree on
+    accept / reject and on the resulting model. -/
+theorem flip_variable_total (pre : List Cqm.Op) (hpre : ∀ op ∈ pre, OpOK op) (v : Label) :
+    let m := ({} : Cqm).run pre
+    ((absCqm m).flipF (linFlags m) v = none ↔ (m.step (.flipVariable v)).2 ≠ none)
+    ∧ ((m.step (.flipVariable v)).2 ≠ none → (m.step (.flipVariable v)).1 = m) := by
+  intro m
+  have hinv : RefInv m := ⟨history_inv pre hpre, history_labels pre, history_keysym pre hpre, history_sorted pre hpre⟩
+  exact flipF_none_iff hinv v
+
 /-- not vacuous, both outcomes of the BINARY branch on `demo` + a discrete constraint `d` over x, y: the first flip of `x`
     makes `d` no longer one-hot, so `is_discrete()` is False when the marks are examined and the mark STAYS; the second flip
     restores the one-hot form and the mark is cleared — the function gives the marks the model has, and `is_linear()` is what
